@@ -113,13 +113,14 @@ func EncryptStreamTo[E typez.StrOrBytes](out io.Writer, stream io.Reader, secret
 func DecryptStreamTo[E typez.StrOrBytes](out io.Writer, stream io.Reader, secret E) error {
 	saltHeader := make([]byte, aes.BlockSize)
 
-	n, err := stream.Read(saltHeader)
-	if err != nil {
-		return fmt.Errorf("read header error: %w", err)
+	// a Reader may deliver the header in several short reads (and may return data together with io.EOF)
+	n, err := io.ReadFull(stream, saltHeader)
+	if err == io.ErrUnexpectedEOF || (err == io.EOF && n < aes.BlockSize) {
+		return fmt.Errorf("read header less error: n=%d", n)
 	}
 
-	if n != aes.BlockSize {
-		return fmt.Errorf("read header less error: n=%d", n)
+	if err != nil {
+		return fmt.Errorf("read header error: %w", err)
 	}
 
 	if !bytes.Equal(saltHeader[:8], fixedSaltHeader) {
